@@ -292,7 +292,7 @@ class Trace:
     def on_step(self, smp):
         i = smp._blk
         ev = {"blk": i, "cur": self.snapshot(),
-              "probes": [float(smp.target.logd(np.asarray(p, dtype=float))) for p in self.probes[i]],
+              "probes": [float(np.nan_to_num(float(np.ravel(smp.target.logd(np.asarray(p, dtype=float)))[0]), nan=0.0)) for p in self.probes[i]],
               "pt": [float(a) for a in np.asarray(smp.current_point).ravel()], "cache": None}
         if smp.KIND == "KMH":
             ev["cache"] = float(smp.current_target_logd)
@@ -321,6 +321,24 @@ class _Rand:
 # ------------------------------------------------------------------------------------------
 # HybridGibbs driver
 # ------------------------------------------------------------------------------------------
+def styled(v, style):
+    """the same initial point in another declaration style: dtype / memory layout / container"""
+    v = np.asarray(v, dtype=float)
+    if style == "int" and np.all(v == np.round(v)):
+        return v.astype(np.int64)
+    if style == "f32":
+        return v.astype(np.float32)             # the harness only uses values exactly representable in binary32 here
+    if style == "view":
+        buf = np.zeros(2 * len(v) + 1)
+        buf[1::2] = v
+        return buf[1::2]                        # non-contiguous view
+    if style == "ro":
+        w = v.copy()
+        w.setflags(write=False)                 # read-only array: nobody may write into the user's initial point
+        return w
+    return v
+
+
 def run_hybrid(meta):
     """run the real HybridGibbs on the scenario; returns the observation dict (json-able)"""
     import cuqi
@@ -340,6 +358,8 @@ def run_hybrid(meta):
         ip = None if meta["inits"][i] is None else np.asarray(meta["inits"][i], dtype=float)
         if ip is not None and meta.get("init_scalar", [False] * k)[i]:
             ip = float(ip[0])                       # a plain number, as in MH(initial_point=3): HybridGibbs keeps it as it is
+        elif ip is not None:
+            ip = styled(ip, meta.get("init_style", [None] * k)[i])
         if kind == "KMH":
             h = {"xi": None, "u": None}
             smp = C["KMH"](tr, i, scripts[i], h, holders, proposal=C["Prop"](spec["dims"][i], h), scale=meta["scales"][i], initial_point=ip)
@@ -671,6 +691,7 @@ HY_CELLS = [
     ("hybrid/rec/3blk/warmup+sample", 3, 1, ["KRec"] * 3, [1, 2, None], [("warmup", 4, 0.25), ("sample", 2)]),
     ("hybrid/rec/2blk/warmup-default-freq", 2, 1, ["KRec"] * 2, None, [("warmup", 10, 0.1), ("sample", 1)]),
     ("hybrid/rec/3blk/warmup-twice", 3, 2, ["KRec"] * 3, [2, 1, 1], [("warmup", 2, 0.5), ("sample", 1), ("warmup", 3, 1.0), ("sample", 2)]),
+    ("hybrid/rec/2blk/warmup-fractional-interval", 2, 1, ["KRec"] * 2, [1, 2], [("warmup", 3, 0.5), ("warmup", 5, 0.75), ("sample", 1)]),
     ("hybrid/mh/2blk/sample", 2, 0, ["KMH", "KMH"], None, [("sample", 4)]),
     ("hybrid/mh/3blk/lik/steps", 3, 1, ["KMH", "KMH", "KMH"], [2, 1, 3], [("sample", 3)]),
     ("hybrid/mh+rec/3blk/lik/warmup+sample", 3, 1, ["KMH", "KRec", "KMH"], [1, 2, 2], [("warmup", 4, 0.5), ("sample", 2), ("sample", 1)]),
@@ -698,8 +719,13 @@ def gen_hybrid(rng, cell, rep=1):
         inits[0] = rvec(rng, 1, -2, 2, 2)
     init_scalar = [bool(inits[i] is not None and spec["dims"][i] == 1 and kinds[i] != "KDirect" and (rng.random() < 0.3 or (force_scalar and i == 0)))
                    for i in range(k)]
+    # falsy-but-legitimate initial points (0.0, zero vectors) and declaration styles (integer / binary32 / strided view / read-only)
+    if rep % 3 == 1:
+        j = rng.randrange(k)
+        inits[j] = [0.0] * spec["dims"][j]
+    init_style = [rng.choice([None, "int", "f32", "view", "ro"]) if rep % 2 else None for _ in range(k)]
     return {"iface": "hybrid", "cell": name, "spec": spec, "kinds": list(kinds), "num_steps": None if steps is None else list(steps),
-            "ops": [list(o) for o in ops], "scales": scales, "inits": inits, "init_scalar": init_scalar, "probes": gen_probes(rng, spec),
+            "ops": [list(o) for o in ops], "scales": scales, "inits": inits, "init_scalar": init_scalar, "init_style": init_style, "probes": gen_probes(rng, spec),
             "script": gen_script(rng, spec, kinds, nst, nsw, scales)}
 
 
@@ -1213,11 +1239,19 @@ def real_model(meta):
     import cuqi
     from cuqi.distribution import Gaussian, Gamma, JointDistribution
     g = float(meta["sigma"])
-    if meta["model"] == "hier":
+    if meta["model"] in ("hier", "lmrf", "reg"):
         A = cuqi.model.LinearModel(np.asarray(meta["A"], dtype=float) / g)
         d = Gamma(1, meta["bd"] * g * g, name="d")
         l = Gamma(1, meta["bl"], name="l")
-        x = Gaussian(np.zeros(len(meta["A"][0])), cov=lambda d: 1 / d, name="x")
+        n_ = len(meta["A"][0])
+        if meta["model"] == "lmrf":                      # x ~ LMRF(0, scale 1/d): log-density -d |D x|_1 + (number of differences) log(d/2)
+            from cuqi.distribution import LMRF
+            x = LMRF(0, lambda d: 1 / d, geometry=n_, name="x")
+        elif meta["model"] == "reg":                     # implicit prior (no log-density): Gaussian restricted to x >= 0
+            from cuqi.implicitprior import RegularizedGaussian
+            x = RegularizedGaussian(np.zeros(n_), prec=lambda d: d, constraint="nonnegativity", name="x")
+        else:
+            x = Gaussian(np.zeros(n_), cov=lambda d: 1 / d, name="x")
         y = Gaussian(A(x), cov=lambda l: 1 / l, name="y")
         dens = {"d": d, "l": l, "x": x}
         order = [dens[n] for n in meta["spec"]["names"]]
@@ -1233,6 +1267,8 @@ def real_model(meta):
 def real_kind(meta, i):
     """how the model treats block i of a real-family scenario"""
     a = meta["assign"][i]
+    if i in meta.get("opaque", []):
+        return "KRec"
     if a == "Conjugate":
         return "KConj"
     if a == "LinearRTO":
@@ -1244,13 +1280,14 @@ def real_kind(meta, i):
 
 def real_poly_block(meta, i):
     """is the conditional of block i polynomial (no log term)?  Then cached logd / gradient can be compared with the model's"""
-    return not (meta["model"] in ("hier",) and meta["spec"]["names"][i] in ("d", "l"))
+    return meta["model"] in ("hier", "pair") and not (meta["model"] == "hier" and meta["spec"]["names"][i] in ("d", "l"))
 
 
 def real_sampler(meta, i, tr):
-    from cuqi.experimental.mcmc import MH, MALA, ULA, CWMH, PCN, NUTS, LinearRTO, Conjugate, Direct
+    from cuqi.experimental.mcmc import MH, MALA, ULA, CWMH, PCN, NUTS, LinearRTO, Conjugate, Direct, UGLA, ConjugateApprox, RegularizedLinearRTO
     base = {"MH": MH, "MALA": MALA, "ULA": ULA, "CWMH": CWMH, "PCN": PCN, "NUTS": NUTS, "LinearRTO": LinearRTO,
-            "Conjugate": Conjugate, "Direct": Direct}[meta["assign"][i]]
+            "Conjugate": Conjugate, "Direct": Direct, "UGLA": UGLA, "ConjugateApprox": ConjugateApprox,
+            "RegularizedLinearRTO": RegularizedLinearRTO}[meta["assign"][i]]
 
     class W(base):
         KIND = "KRec"
@@ -1402,6 +1439,18 @@ def real_closed_form(meta, i, others):
     returns f(p) = the part of log p(block i = p | others) that depends on p, split into (polynomial part, coefficient of log p_0)"""
     nm = meta["spec"]["names"][i]
     g = Fraction(meta["sigma"])
+    if meta["model"] == "lmrf":
+        A = [[Fraction(a) for a in row] for row in meta["A"]]
+        y = [Fraction(v) for v in meta["y"]]
+        n, m = len(A[0]), len(A)
+        res = lambda xv: sum((y[r] - sum(A[r][c] * xv[c] for c in range(n))) ** 2 for r in range(m))
+        tv = lambda xv: sum(abs(b - a) for a, b in zip([0] + list(xv), list(xv) + [0]))        # |D x|_1, zero boundary
+        if nm == "x":
+            d, l = others["d"][0], others["l"][0]
+            return (lambda p: -d * tv(p) - l / 2 * res(p)), 0
+        if nm == "d":
+            return (lambda p: -(Fraction(meta["bd"]) + tv(others["x"])) * p[0]), None
+        return (lambda p: -(Fraction(meta["bl"]) + res(others["x"]) / 2) * p[0]), Fraction(m, 2)
     if meta["model"] == "hier":
         A = [[Fraction(a) / g for a in row] for row in meta["A"]]
         y = [Fraction(v) for v in meta["y"]]
@@ -1429,12 +1478,14 @@ def real_closed_form(meta, i, others):
 def real_probe_check(meta, i, want, e):
     """target handed to block i vs the closed-form conditional given the TRUE current others, through probe combinations"""
     names = meta["spec"]["names"]
+    if meta["model"] == "reg":
+        return None                  # the implicit prior has no log-density (every conditional's logd is NaN): nothing can be probed through logd
     others = {names[b]: _F(want[b]) for b in range(len(names)) if b != i}
-    f, logc = real_closed_form(meta, i, others)
+    f, logc = real_closed_form(meta if meta["model"] != "reg" else dict(meta, model="lmrf"), i, others)
     probes = [_F(p) for p in meta["probes"][i]]
     o = [Fraction(*float(v).as_integer_ratio()) for v in e["probes"]]
     t = [f(p) for p in probes]
-    for c in meta["combos"][i]:
+    for c in meta.get("pycombos", meta["combos"])[i]:
         lhs = sum(ck * ov for ck, ov in zip(c, o))
         rhs = sum(ck * tv for ck, tv in zip(c, t))
         size = 1 + sum(abs(ck * ov) for ck, ov in zip(c, o)) + sum(abs(ck * tv) for ck, tv in zip(c, t))
@@ -1511,6 +1562,11 @@ def cgjoint(meta):
     g = Fraction(meta["sigma"])
     ix = {n: i for i, n in enumerate(names)}
     row = lambda c, cos: "(mkRow %s %s)" % (cq(c), clist([cqvec(cos.get(b, [])) for b in range(k)]))
+    if meta["model"] in ("lmrf", "reg"):
+        A = [[Fraction(a) for a in r] for r in meta["A"]]
+        f2 = "(mkGF (inl %s) %s)" % (cnat(ix["l"]), clist([row(meta["y"][r], {ix["x"]: A[r]}) for r in range(len(A))]))
+        lins = clist(["(%s, %s)" % (cnat(ix["d"]), cq(Fraction(meta["bd"]))), "(%s, %s)" % (cnat(ix["l"]), cq(meta["bl"]))])
+        return "(gjoint %s %s)" % (clist([f2]), lins)          # the prior of x is not polynomial: only the l-block is compared in Coq
     if meta["model"] == "hier":
         A = [[Fraction(a) / g for a in r] for r in meta["A"]]
         n = len(A[0])
@@ -1548,6 +1604,8 @@ def encode_real(meta, obs, fresh=True):
     for e in obs["events"]:
         e2 = dict(e)
         e2.setdefault("cache", None)
+        if real_kind(meta, e["blk"]) != "KConj":
+            e2.pop("gshape", None)           # a Conjugate block the model treats as opaque (RegularizedGaussian pair)
         evs.append(coev(e2))
     return "check_hybrid_tol %s %s %s %s %s %s %s %s %s %s %s %s %s %s %s" % (
         cbool(fresh), cgjoint(meta), clist([real_kind(meta, i) for i in range(k)]), cvecs(meta["inits"]),
@@ -1563,6 +1621,9 @@ REAL_CELLS = [
     ("real/hier/LinearRTO+Conjugate/x-scale2^20/warmup", "hier", ["d", "x", "l"], ["Conjugate", "LinearRTO", "Conjugate"], None, [("warmup", 2, 0.5), ("sample", 2)], 20),
     ("real/hier/NUTS+Conjugate", "hier", ["d", "l", "x"], ["Conjugate", "Conjugate", "NUTS"], None, [("warmup", 2, 0.5), ("sample", 2)], 0),
     ("real/hier/MALA+MH+Conjugate", "hier", ["x", "d", "l"], ["MALA", "MH", "Conjugate"], [2, 1, 1], [("sample", 3)], 0),
+    ("real/lmrf/UGLA+ConjugateApprox+Conjugate", "lmrf", ["d", "l", "x"], ["ConjugateApprox", "Conjugate", "UGLA"], None, [("sample", 3)], 0),
+    ("real/lmrf/UGLA+ConjugateApprox+Conjugate/steps+warmup", "lmrf", ["x", "l", "d"], ["UGLA", "Conjugate", "ConjugateApprox"], [2, 1, 1], [("warmup", 2, 0.5), ("sample", 2)], 0),
+    ("real/reg/RegularizedLinearRTO+Conjugate", "reg", ["x", "d", "l"], ["RegularizedLinearRTO", "Conjugate", "Conjugate"], None, [("sample", 3)], 0),
     ("real/pair/MALA+MH", "pair", ["x", "s"], ["MALA", "MH"], None, [("sample", 4)], 0),
     ("real/pair/ULA+MH/scale2^-30", "pair", ["x", "s"], ["ULA", "MH"], None, [("sample", 4)], -30),
     ("real/pair/CWMH+MH/warmup", "pair", ["s", "x"], ["MH", "CWMH"], [1, 2], [("warmup", 2, 0.5), ("sample", 2)], 0),
@@ -1580,7 +1641,7 @@ def gen_real(rng, cell):
     meta = {"iface": "real", "real": True, "cell": name, "model": model, "assign": list(assign), "sigma": g, "npseed": rng.randint(0, 10 ** 6),
             "zero_noise": bool(rng.random() < 0.5), "ypos": rng.randint(0, k),
             "num_steps": None if steps is None else list(steps), "ops": [list(o) for o in ops], "kinds": ["KRec"] * k}
-    if model == "hier":
+    if model in ("hier", "lmrf", "reg"):
         n, m = rng.choice([2, 3]), 3
         meta["A"] = [[rng.randint(-2, 2) for _ in range(n)] for _ in range(m)]
         for j in range(n):
@@ -1605,6 +1666,14 @@ def gen_real(rng, cell):
         sscale = {}
         for nm, a in zip(names, assign):
             sscale[nm] = {"MALA": 0.05 * g * g, "ULA": 0.05 * g * g}.get(a, 0.5 * g if a in ("MH", "CWMH") else 0.5)
+    if model in ("lmrf", "reg"):
+        meta["pycombos"] = [combos[nm] for nm in names]                       # the Python oracle compares every block it can
+        combos = dict(combos, x=[], d=[])                                     # Coq: only the polynomial l-block
+        if model == "reg":
+            combos = dict(combos, l=[])
+        meta["opaque"] = [i for i, nm in enumerate(names) if model == "reg" and nm == "d"]
+        if model == "reg":
+            init["x"] = [abs(a) + 0.25 * g for a in init["x"]]
     if model == "hier":
         for nm, a in zip(names, assign):
             if a in ("MH", "CWMH"):
@@ -1660,7 +1729,7 @@ def run_legacy_real(meta):
                 if which == "MH":
                     kw["scale"] = meta["sscale"][self.blk]
                 if which == "NUTS":
-                    kw["max_depth"] = 3
+                    kw["max_depth"], kw["adapt_step_size"] = 3, 0.25 * float(meta["sigma"])      # fixed step: usable without burn-in
                 self.inner = base(tgt, **kw)
 
             def step(self, x):
